@@ -56,6 +56,23 @@ pub fn run(path: &str) -> i32 {
     let case = &v["case"];
     let prop = v["property"].as_str().unwrap_or("?");
     match case["engine"].as_str().unwrap_or("") {
+        "memory" => {
+            // the guard names the case it stopped in; the replay is the check itself
+            println!("case: memory guard tripped in {} ({}): {}", case["check"], case["tier"], case["note"]);
+            let exe = std::env::current_exe().unwrap();
+            let st = std::process::Command::new(exe).arg(case["check"].as_str().unwrap_or("C01")).args(["--tier", case["tier"].as_str().unwrap_or("quick")]).status();
+            match st.ok().and_then(|s| s.code()) {
+                Some(0) => {
+                    println!("REPLAY: no violation");
+                    0
+                }
+                Some(1) => {
+                    println!("REPLAY: violation reproduced");
+                    1
+                }
+                _ => 2,
+            }
+        }
         "static" => {
             let g = Graph::from_json(&case["graph"]);
             let pres = Presentation::from_name(case["presentation"].as_str().unwrap()).unwrap();
